@@ -939,6 +939,73 @@ def check_single_recipient():
     return None
 
 
+def check_multi_recipients():
+    """(round 7) _parse_multi_recipients on strings (the pieces between ';' / ',' that give a name or an address, in order) and on
+    lists of such strings (concatenation in item order)."""
+    from sharepoint2text.parsing.extractors.mail import msg_email_extractor as msg
+    table = [("", []), ("A <a@x.com>; B <b@x.com>", [("A", "a@x.com"), ("B", "b@x.com")]), ("u1@x.com, u2@x.com", [("", "u1@x.com"), ("", "u2@x.com")]),
+             ("A <a@x.com>;;  ; B", [("A", "a@x.com"), ("B", "")]), ("< > ; c@x.org", [("", "c@x.org")]), (";", []), ("One Name", [("One Name", "")]),
+             ("X <x@x.org>,Y <y@x.org>;Z <z@x.org>", [("X", "x@x.org"), ("Y", "y@x.org"), ("Z", "z@x.org")]),
+             # the list form: the recipients of each item, items in order
+             ([], []), (["User <user@x.com>"], [("User", "user@x.com")]),
+             (["A <a@x.com>", "B <b@x.com>; C <c@x.com>", "", "d@x.com"], [("A", "a@x.com"), ("B", "b@x.com"), ("C", "c@x.com"), ("", "d@x.com")]),
+             (["Q <q@x.org>, R", "S <s@x.org>"], [("Q", "q@x.org"), ("R", ""), ("S", "s@x.org")])]
+    for raw, want in table:
+        got = [(r.name, r.address) for r in msg._parse_multi_recipients(raw)]
+        if got != want:
+            return {"target": "msg_email_extractor.py::_parse_multi_recipients", "inputs": {"raw": raw}, "expected": want, "observed": got}
+    return None
+
+
+def check_read_ole_string():
+    """(round 7) _read_ole_string over a stub OLE file: never raises; '' when the stream is missing / unreadable, else the UTF-16-LE
+    text without trailing NULs (undecodable units dropped) -- validates the assumed olefile shapes the contract is stated over."""
+    from sharepoint2text.parsing.extractors.mail import msg_email_extractor as msg
+
+    class Stream:
+        def __init__(self, data):
+            self.data = data
+
+        def read(self):
+            if isinstance(self.data, Exception):
+                raise self.data
+            return self.data
+
+    class Ole:
+        def __init__(self, streams):
+            self.streams = streams
+
+        def openstream(self, path):
+            key = tuple(path)
+            if key not in self.streams:
+                raise OSError("file not found")
+            return Stream(self.streams[key])
+    ole = Ole({("st", "a"): "report.txt\x00\x00".encode("utf-16-le"), ("st", "b"): "Bericht \u00fc.pdf".encode("utf-16-le") + b"\x00",
+               ("st", "c"): OSError("broken sector chain"), ("st", "d"): b"", ("a", "st"): "swapped".encode("utf-16-le")})
+    table = [(("st", "a"), "report.txt"), (("st", "b"), "Bericht \u00fc.pdf"), (("st", "c"), ""), (("st", "d"), ""), (("st", "missing"), "")]
+    for (storage, name), want in table:
+        try:
+            got = msg._read_ole_string(ole, storage, name)
+        except Exception as e:  # noqa
+            got = f"raised {type(e).__name__}: {e}"
+        if got != want:
+            return {"target": "msg_email_extractor.py::_read_ole_string", "inputs": {"storage": storage, "stream": name}, "expected": want, "observed": got}
+    return None
+
+
+def check_looks_like_html():
+    """(round 7) _looks_like_html: the cases the contract distinguishes (empty, doctype / <html / <body in any case after leading
+    blanks, a listed tag closed at once); tags with attributes are the recorded finding C16-msg-html-fragment-not-recognised."""
+    from sharepoint2text.parsing.extractors.mail import msg_email_extractor as msg
+    table = [("", False), ("plain text", False), ("  \n<!DOCTYPE html><title>x</title>", True), ("x <HTML lang=en>", True), ("<Body\n>", True),
+             ("<p>para</p>", True), ("a < b", False), ("<BR>", True), ("1 <pre>x</pre>", False)]
+    for text, want in table:
+        got = msg._looks_like_html(text)
+        if got is not want:
+            return {"target": "msg_email_extractor.py::_looks_like_html", "inputs": {"text": text}, "expected": want, "observed": got}
+    return None
+
+
 def check_msg_fixture():
     """read_msg_format_mail on the repository's .msg fixtures against their .eml twins (field mapping)."""
     from sharepoint2text.parsing.extractors.mail import msg_email_extractor as msg
@@ -1176,6 +1243,8 @@ WITNESSES = [
     ("parse_email_message/ensures#subject", _w(lambda: check_subjects("mbox"))),
     ("parse_email_message/ensures#message_id", w_folded_ids),
     ("parse_email_message/ensures#in_reply_to", w_folded_ids),
+    ("_HTML_HINT_RE", lambda: w_html_hint()),
+    ("_looks_like_html", lambda: w_html_hint()),
 ]
 def w_folded_address_headers():
     r = check_address_unfolding() or check_eml_names_unfolded()
@@ -1208,7 +1277,38 @@ def w_attached_message_leak():
     return got != want, {"message": raw.decode("latin-1")}, want, got
 
 
-KNOWN = {"C16-attached-message-body-leak": w_attached_message_leak, "F21-mbox-no-attachments": w_mbox_attachments, "C16-folded-address-headers": w_folded_address_headers,
+def w_html_hint():
+    """An Outlook HTML body is a fragment whose tags carry attributes (`<div class="WordSection1"><p class="MsoNormal">..`): read
+    through read_msg_format_mail (stub MsOxMessage over a real .msg file, as check_msg_mapping) it must come back as the HTML body,
+    the plain body being its text.  Falls back to the helper alone when the fixture is missing."""
+    from sharepoint2text.parsing.extractors.mail import msg_email_extractor as msg
+    body = '<div class="WordSection1"><p class="MsoNormal">Hello Bob,</p><p class="MsoNormal">see you <span style="color:red">tomorrow</span>.</p></div>'
+    want = {"body_html": body, "markup in body_plain": False}
+    p = os.path.join(REPO, "sharepoint2text/tests/resources/mails/basic_email.msg")
+    if not os.path.exists(p) or not hasattr(msg, "MsOxMessage"):
+        fn = getattr(msg, "_looks_like_html", None)
+        if fn is None:
+            return False, {}, "", ""
+        got = fn(body)
+        return got is not True, {"_looks_like_html": body}, True, got
+
+    class Stub:
+        def __init__(self, stream):
+            self.subject, self.message_id, self.sent_date = "s", "<mid@x.org>", "Mon, 01 Jan 2024 10:00:00 +0200"
+            self.sender, self.to, self.cc, self.bcc, self.reply_to = "S <s@x.org>", "A <a@x.org>", "", "", ""
+            self.body = body
+    real = msg.MsOxMessage
+    msg.MsOxMessage = Stub
+    try:
+        res = list(msg.read_msg_format_mail(io.BytesIO(open(p, "rb").read())))
+    finally:
+        msg.MsOxMessage = real
+    r = res[0]
+    got = {"body_html": r.body_html, "markup in body_plain": "<p" in r.body_plain or "<div" in r.body_plain}
+    return got != want, {"stub MsOxMessage over basic_email.msg, body": body}, want, dict(got, body_plain=r.body_plain)
+
+
+KNOWN = {"C16-msg-html-fragment-not-recognised": w_html_hint, "C16-attached-message-body-leak": w_attached_message_leak, "F21-mbox-no-attachments": w_mbox_attachments, "C16-folded-address-headers": w_folded_address_headers,
          "C16-standard-mime-types-missing": w_missing_standard_types}
 RECORDED_SHAPES = ("folded-quoted-names",)       # legacy variants that only restate a recorded finding
 
@@ -1218,7 +1318,8 @@ FUNCTION_CHECKS = [
     ("_read_eml_format", check_eml_raw_forms),
     ("MBOX_FROM_PATTERN", check_pattern), ("get_body_content", check_bodies),
     ("_split_mbox_messages", check_split), ("decode_header_value", check_headers), ("parse_email_address", check_headers),
-    ("iterate_supported_attachments", check_dispatch), ("_parse_single_recipient", check_single_recipient), ("read_msg_format_mail", check_msg_mapping), ("read_msg_format_mail", check_msg_fixture),
+    ("iterate_supported_attachments", check_dispatch), ("_parse_single_recipient", check_single_recipient), ("_parse_multi_recipients", check_multi_recipients),
+    ("_looks_like_html", check_looks_like_html), ("_read_ole_string", check_read_ole_string), ("read_msg_format_mail", check_msg_mapping), ("read_msg_format_mail", check_msg_fixture),
 ]
 CATEGORY_OF = [("parse_email_message", "mbox:"), ("get_body_content", "mbox:body"), ("read_mbox_format_mail", "mailbox:"), ("_read_eml_format", "eml:"),
                ("read_eml_format_mail", "eml:")]
@@ -1232,6 +1333,13 @@ def find(req):
             return {"reproduced": False, "note": "unknown finding"}
         bad, inputs, exp, obs = fn()
         return {"reproduced": bool(bad), "target": ob, "inputs": inputs, "expected": exp, "observed": obs}
+    if req.get("function_check_only"):          # (round 7) one named table check, nothing else (bounded stand-in obligations of the pack)
+        fn = globals().get(req["function_check_only"])
+        r = fn() if callable(fn) else None
+        if r is not None:
+            r["reproduced"] = True
+            return r
+        return {"reproduced": False, "note": "table check passed"}
     if "standard-type-of-." in ob:
         r = w_standard_type_of(ob)
         if r is not None:
